@@ -72,8 +72,10 @@ Write(spec) ==
   LET ks == PackKeys(spec, 1, HeaderSize + DescSize * Len(spec))
       as == PackArrays(spec, 1, KeysEnd(spec))
   IN [len |-> FileSizeOf(spec), magic |-> 1, vmaj |-> 1, vmin |-> 0, nitems |-> Len(spec), fsize |-> U(FileSizeOf(spec)),
+      \* kord abstracts the key *content*: its position in the lexicographic order (the writer sorts the items, so 2j;
+      \* odd values are contents that fall between two neighbours, an even value 2i is the content of key i)
       items |-> [j \in 1..Len(spec) |-> [type |-> spec[j].type, ks |-> U(ks[j]), kl |-> U(spec[j].kl),
-                                         as |-> U(as[j]), al |-> U(spec[j].al)]]]
+                                         as |-> U(as[j]), al |-> U(spec[j].al), kord |-> 2 * j]]]
 
 \* ---- reader ----
 RECURSIVE KeysPacked(_, _, _), ArraysPacked(_, _, _)
@@ -112,6 +114,8 @@ Reader(f) ==
                     IF ~ap[1] THEN "ERR"
                     ELSE IF ap[2] # f.fsize THEN "ERR"
                     ELSE IF ~IsSmall(f.fsize) \/ f.len < ToNat(f.fsize) THEN "ERR"   \* short read of keys / arrays
+                    \* keys are looked up by bisection: they must be strictly increasing (checked after the keys are read)
+                    ELSE IF \E j \in 2..n : its[j - 1].kord >= its[j].kord THEN "ERR"
                     ELSE "OK"
 
 \* ---- layout classification of a byte offset in a well-formed file written from spec ----
